@@ -1,7 +1,310 @@
-/- Driver glue for C14: case lines `c14.<sub> <args…> | <impl…>` (stub until the property is built) -/
-import FileD.Prelude.Tok
-namespace FileD.DrvC14
+/-
+  Driver glue for C14. Case lines (byte strings hex, `-` empty, `~` a nil value):
 
-def handle (_cmd : String) (_args _impl : List String) : Option (String × String) := none
+    c14.doif <now> <oracle> <tree> E <event> | <0|1|err>
+    c14.why.doif …same…                      | <0|1>      → M = which recorded shapes explain impl
+    c14.match <mode> <invert> R <n> (<pat> <data> <0|1>)… <nconds> <cond>… E <event> | <0|1>
+
+    <oracle> = L <n> (<in> <out>)…  R <n> (<pat> <data> <0|1>)…  X <n> <invalid pat>…
+               C <n> (<data> <chars> <0|1>)…  T <n> (<fmt> <val> <0|1> <ns>)…  I <n> (<text> <int>)…
+    <tree>   = f <eq|co|ca|pr|su|re> <cs> <sel> <npath> <p>… <nvals> <v>…
+             | l <b|a|i> <sel> <npath> <p>… <lt|le|gt|ge|eq|ne> <int>
+             | t <sel> <npath> <p>… <fmt> <cmp> <n|c> <const> <shift> <interval>
+             | y <sel> <npath> <p>… <nvals> <v>…
+             | and <n> <tree>… | or <n> <tree>… | not <n> <tree>…
+    <cond>   = <sel> <npath> <p>… (r <pat> | s <val> | v <n> <val>…)
+  `<sel>` is the configured field selector (used by the harness only; it checks that
+  cfg.ParseFieldSelector(sel) = the path).
+-/
+import FileD.Prelude.Tok
+import FileD.Prelude.JTree
+import FileD.Model.DoIf
+import FileD.Model.DoIfSt
+import FileD.Model.MatchFields
+import FileD.Spec.C14
+namespace FileD.DrvC14
+open FileD Tok FileD.DoIf FileD.MatchFields FileD.SpecC14
+
+abbrev P (α : Type) := List String → Option (α × List String)
+
+def tok : P String
+  | [] => none
+  | t :: ts => some (t, ts)
+
+def pBytes : P Bytes := fun ts => do
+  let (t, r) ← tok ts
+  let b ← bytes? t
+  pure (b, r)
+
+def pNat : P Nat := fun ts => do
+  let (t, r) ← tok ts
+  let n ← nat? t
+  pure (n, r)
+
+def pInt : P Int := fun ts => do
+  let (t, r) ← tok ts
+  let n ← int? t
+  pure (n, r)
+
+def pBool : P Bool := fun ts => do
+  let (t, r) ← tok ts
+  let b ← bool? t
+  pure (b, r)
+
+def expect (s : String) : P Unit := fun ts => do
+  let (t, r) ← tok ts
+  if t = s then pure ((), r) else none
+
+/-- n repetitions -/
+def rep {α} (p : P α) : Nat → P (List α)
+  | 0, ts => some ([], ts)
+  | n+1, ts => do
+    let (x, r) ← p ts
+    let (xs, r') ← rep p n r
+    pure (x :: xs, r')
+
+def counted {α} (p : P α) : P (List α) := fun ts => do
+  let (n, r) ← pNat ts
+  rep p n r
+
+def pOptBytes : P (Option Bytes) := fun ts => do
+  let (t, r) ← tok ts
+  if t = "~" then pure (none, r) else do
+    let b ← bytes? t
+    pure (some b, r)
+
+/-! oracle tables -/
+
+structure Tables where
+  lower : List (Bytes × Bytes)
+  re    : List (Bytes × Bytes × Bool)
+  bad   : List Bytes
+  cany  : List (Bytes × Bytes × Bool)
+  time  : List (Bytes × Bytes × Option Int)
+  ints  : List (Bytes × Int)
+
+def pPair : P (Bytes × Bytes) := fun ts => do
+  let (a, r) ← pBytes ts
+  let (b, r) ← pBytes r
+  pure ((a, b), r)
+
+def pTriple : P (Bytes × Bytes × Bool) := fun ts => do
+  let (a, r) ← pBytes ts
+  let (b, r) ← pBytes r
+  let (c, r) ← pBool r
+  pure ((a, b, c), r)
+
+def pTime : P (Bytes × Bytes × Option Int) := fun ts => do
+  let (a, r) ← pBytes ts
+  let (b, r) ← pBytes r
+  let (ok, r) ← pBool r
+  let (n, r) ← pInt r
+  pure ((a, b, if ok then some n else none), r)
+
+def pIntEntry : P (Bytes × Int) := fun ts => do
+  let (a, r) ← pBytes ts
+  let (n, r) ← pInt r
+  pure ((a, n), r)
+
+def pReTable : P (List (Bytes × Bytes × Bool)) := fun ts => do
+  let (_, r) ← expect "R" ts
+  counted pTriple r
+
+def pTables : P Tables := fun ts => do
+  let (_, r) ← expect "L" ts
+  let (lo, r) ← counted pPair r
+  let (re, r) ← pReTable r
+  let (_, r) ← expect "X" r
+  let (bad, r) ← counted pBytes r
+  let (_, r) ← expect "C" r
+  let (ca, r) ← counted pTriple r
+  let (_, r) ← expect "T" r
+  let (tm, r) ← counted pTime r
+  let (_, r) ← expect "I" r
+  let (it, r) ← counted pIntEntry r
+  pure (⟨lo, re, bad, ca, tm, it⟩, r)
+
+def find1 {β} (k : Bytes) : List (Bytes × β) → Option β
+  | [] => none
+  | (a, b) :: l => if a = k then some b else find1 k l
+
+def find2 {β} (k1 k2 : Bytes) : List (Bytes × Bytes × β) → Option β
+  | [] => none
+  | (a, b, c) :: l => if a = k1 ∧ b = k2 then some c else find2 k1 k2 l
+
+def reOf (tbl : List (Bytes × Bytes × Bool)) : Bytes → Bytes → Bool :=
+  fun p d => match find2 p d tbl with | some b => b | none => false
+
+/-- the oracle functions: table look-up; the harness guarantees that every query the code makes
+    on this case is in the table (it recomputes the tables and rejects the case otherwise) -/
+def Tables.oracle (t : Tables) : Oracle where
+  lower b := match find1 b t.lower with | some r => r | none => b
+  reMatch := reOf t.re
+  reValid p := !t.bad.contains p
+  containsAny d c := match find2 d c t.cany with | some b => b | none => false
+  parseTime f v := match find2 f v t.time with | some r => r | none => none
+  asInt x := match find1 x t.ints with | some n => n | none => 0
+
+/-! rule tree -/
+
+def pFOp : P FOp := fun ts => do
+  let (t, r) ← tok ts
+  match t with
+  | "eq" => pure (.equal, r)
+  | "co" => pure (.contains, r)
+  | "ca" => pure (.containsAny, r)
+  | "pr" => pure (.prefix, r)
+  | "su" => pure (.suffix, r)
+  | "re" => pure (.regex, r)
+  | _ => none
+
+def pCmp : P CmpOp := fun ts => do
+  let (t, r) ← tok ts
+  match t with
+  | "lt" => pure (.lt, r)
+  | "le" => pure (.le, r)
+  | "gt" => pure (.gt, r)
+  | "ge" => pure (.ge, r)
+  | "eq" => pure (.eq, r)
+  | "ne" => pure (.ne, r)
+  | _ => none
+
+/-- `<sel> <npath> <p>…` → path -/
+def pPath : P (List Bytes) := fun ts => do
+  let (_, r) ← pBytes ts
+  counted pBytes r
+
+def pTree : Nat → P Node
+  | 0, _ => none
+  | fuel+1, ts => do
+    let (t, r) ← tok ts
+    match t with
+    | "f" =>
+      let (op, r) ← pFOp r
+      let (cs, r) ← pBool r
+      let (path, r) ← pPath r
+      let (vals, r) ← counted pOptBytes r
+      pure (.field ⟨op, path, cs, vals⟩, r)
+    | "l" =>
+      let (k, r) ← tok r
+      let kind ← (match k with | "b" => some LenKind.byte | "a" => some .array | "i" => some .int | _ => none)
+      let (path, r) ← pPath r
+      let (cmp, r) ← pCmp r
+      let (v, r) ← pInt r
+      pure (.lenCmp ⟨kind, path, cmp, v⟩, r)
+    | "t" =>
+      let (path, r) ← pPath r
+      let (fmt, r) ← pBytes r
+      let (cmp, r) ← pCmp r
+      let (m, r) ← tok r
+      let mode ← (match m with | "n" => some TsMode.now | "c" => some .const | _ => none)
+      let (c, r) ← pInt r
+      let (sh, r) ← pInt r
+      let (iv, r) ← pInt r
+      pure (.tsCmp ⟨path, fmt, cmp, mode, c, sh, iv⟩, r)
+    | "y" =>
+      let (path, r) ← pPath r
+      let (vals, r) ← counted pBytes r
+      pure (.checkType ⟨path, vals⟩, r)
+    | "and" =>
+      let (ops, r) ← counted (pTree fuel) r
+      pure (.and ops, r)
+    | "or" =>
+      let (ops, r) ← counted (pTree fuel) r
+      pure (.or ops, r)
+    | "not" =>
+      let (ops, r) ← counted (pTree fuel) r
+      pure (.not ops, r)
+    | _ => none
+
+def pEvent : P JTree := fun ts => do
+  let (_, r) ← expect "E" ts
+  JTree.parse? r
+
+structure DoIfCase where
+  now : Int
+  o   : Oracle
+  n   : Node
+  ev  : JTree
+
+def pDoIf (args : List String) : Option DoIfCase := do
+  let (now, r) ← pInt args
+  let (tb, r) ← pTables r
+  let (n, r) ← pTree (r.length + 1) r
+  let (ev, r) ← pEvent r
+  if r ≠ [] then none
+  pure ⟨now, tb.oracle, n, ev⟩
+
+def encRes (valid res : Bool) : String := if !valid then "err" else ofBool res
+
+def relaxations : List (String × Relax) :=
+  [("lower", ⟨true, false, false⟩), ("container", ⟨false, true, false⟩), ("escapes", ⟨false, false, true⟩),
+   ("lower+container", ⟨true, true, false⟩), ("lower+escapes", ⟨true, false, true⟩),
+   ("container+escapes", ⟨false, true, true⟩), ("lower+container+escapes", ⟨true, true, true⟩)]
+
+def explain (c : DoIfCase) (res : Bool) : String :=
+  if spec c.o c.now c.ev c.n == res then "spec" else
+  match relaxations.find? (fun (_, r) => admitted r c.o c.now c.ev c.n res) with
+  | some (name, _) => name
+  | none => "unexplained"
+
+def handleDoIf (args impl : List String) : Option (String × String) := do
+  let c ← pDoIf args
+  let v := valid c.o c.n
+  let m := encRes v (checkSt c.o c.now c.ev c.n []).1
+  let want := encRes v (spec c.o c.now c.ev c.n)
+  let p := match impl with
+    | [r] => if r = want then "ok" else if r = "0" ∨ r = "1" ∨ r = "err" then "fail" else "bad-impl"
+    | _ => "bad-impl"
+  pure (m, p)
+
+def handleWhy (args impl : List String) : Option (String × String) := do
+  let c ← pDoIf args
+  match impl with
+  | ["0"] => pure (explain c false, "ok")
+  | ["1"] => pure (explain c true, "ok")
+  | _ => pure ("unexplained", "ok")
+
+/-! match_fields -/
+
+def pMode : P Mode := fun ts => do
+  let (t, r) ← tok ts
+  match t with
+  | "and" => pure (.and, r)
+  | "default" => pure (.and, r)
+  | "or" => pure (.or, r)
+  | "and_prefix" => pure (.andPrefix, r)
+  | "or_prefix" => pure (.orPrefix, r)
+  | _ => none
+
+def pCond : P Cond := fun ts => do
+  let (path, r) ← pPath ts
+  let (k, r) ← tok r
+  match k with
+  | "r" => let (p, r) ← pBytes r; pure (⟨path, [], some p⟩, r)
+  | "s" => let (v, r) ← pBytes r; pure (⟨path, [v], none⟩, r)
+  | "v" => let (vs, r) ← counted pBytes r; pure (⟨path, vs, none⟩, r)
+  | _ => none
+
+def handleMatch (args impl : List String) : Option (String × String) := do
+  let (mode, r) ← pMode args
+  let (inv, r) ← pBool r
+  let (tbl, r) ← pReTable r
+  let (conds, r) ← counted pCond r
+  let (ev, r) ← pEvent r
+  if r ≠ [] then none
+  let re := reOf tbl
+  let m := ofBool (isMatch re mode conds inv ev)
+  let want := ofBool (specMatch re mode conds inv ev)
+  let p := match impl with
+    | [x] => if x = want then "ok" else if x = "0" ∨ x = "1" then "fail" else "bad-impl"
+    | _ => "bad-impl"
+  pure (m, p)
+
+def handle (cmd : String) (args impl : List String) : Option (String × String) :=
+  if cmd = "c14.doif" then handleDoIf args impl
+  else if cmd = "c14.why.doif" then handleWhy args impl
+  else if cmd = "c14.match" then handleMatch args impl
+  else none
 
 end FileD.DrvC14
